@@ -15,16 +15,15 @@ on the real server.
 import SigModel.Model.ShapesClient
 
 namespace SigModel.ShapesClient
-open SigModel.Generated.ShapesClient
 
 /-- A frame within the size limit that is not a well-formed, valid message. -/
-def Frame.invalid (f : Frame) : Bool :=
+def Frame.invalid (F : Facts) (f : Frame) : Bool :=
   f.binary ||
   match f.dec with
   | .err => true
-  | .ok m => decide (checkValid m ≠ .ok)
+  | .ok m => decide (checkValid F m ≠ .ok)
 
-def Frame.oversize (f : Frame) : Bool := decide (f.size > maxMessageSize)
+def Frame.oversize (F : Facts) (f : Frame) : Bool := decide (f.size > F.maxMessageSize)
 
 def roomEvents : List String := ["event.room.join", "event.room.leave", "event.participants.update"]
 
@@ -45,8 +44,8 @@ def internalNamesBystanderRoom (st : St) (s : Sess) (i : Internal) : Bool :=
   (i.incall.isSome && s.room = .by)
 
 /-- Kinds of messages the statement lets this frame cause at the bystander. -/
-def addressed (st : St) (f : Frame) : List String :=
-  if f.oversize || f.invalid then [] else
+def addressed (F : Facts) (st : St) (f : Frame) : List String :=
+  if f.oversize F || f.invalid F then [] else
   match st.conn, f.dec with
   | .session s, .ok m =>
     if s.fed then [] else
@@ -60,7 +59,9 @@ def addressed (st : St) (f : Frame) : List String :=
       | none => []
     else if m.mtype = "room" then
       match m.room with
-      | some r => if s.room = .by || r.roomId = .by then roomEvents else []
+      -- a room session id sent along names whoever holds it: that session is
+      -- disconnected, which its room sees
+      | some r => if s.room = .by || r.roomId = .by || !r.sidEmpty then roomEvents else []
       | none => []
     else if m.mtype = "bye" then
       (if s.room = .by || st.world.virt.any (fun v => v.2 = .by) then roomEvents else [])
@@ -87,19 +88,19 @@ def isErrorKind (k : String) : Bool := "error:".toList.isPrefixOf k.toList
 def wellFormedKind (k : String) : Bool :=
   !("malformed".toList.isPrefixOf k.toList) && !("unknown:".toList.isPrefixOf k.toList)
 
-def judge (st : St) (f : Frame) (o : Seen) : String :=
+def judge (F : Facts) (st : St) (f : Frame) (o : Seen) : String :=
   if (o.s ++ o.b).contains "timeout" then "violated:no-answer-within-5s"
   else if !(o.s ++ o.b).all wellFormedKind then "violated:reply-not-well-formed"
   else if o.b.contains "dead" || o.b.contains "closed" then "violated:bystander-disconnected"
   else if o.http = some "-1" then "violated:backend-request-aborted"
-  else if f.oversize then "ok"
-  else if f.invalid then
+  else if f.oversize F then "ok"
+  else if f.invalid F then
     if !o.s.any isErrorKind then "violated:invalid-message-not-answered-with-error"
     else if o.st ≠ "same" then "violated:invalid-message-changed-server-state"
     else if !o.b.isEmpty then "violated:invalid-message-reached-bystander"
     else "ok"
   else
-    match o.b.find? (fun k => !(addressed st f).contains k) with
+    match o.b.find? (fun k => !(addressed F st f).contains k) with
     | some k => "violated:bystander-got-unaddressed:" ++ k
     | none => "ok"
 
